@@ -6,7 +6,7 @@ from tools.framework import Case, Err
 from harness.midi_common import *
 
 ID = "C16"
-LEAN_MODULES = ["Mingus.Props.C16Vlq", "Mingus.Props.C16Smf", "Mingus.Props.C16Spec", "Mingus.Props.C16Track", "Mingus.Props.C16Tempo",
+LEAN_MODULES = ["Mingus.Props.C16Vlq", "Mingus.Props.C16Smf", "Mingus.Props.C16Spec", "Mingus.Props.C16Track", "Mingus.Props.C16Tempo", "Mingus.Props.C16TempoTrack",
                 "Mingus.Props.C16", "Mingus.Props.C16Meta", "Mingus.Tie.C16"]
 RULE = ("variable-length encoder: 0..20000 (quick) / 0..600000 (thorough) densely, every 128^k +-3 up to 2^35, 2^28-1, seeded "
         "random values below 2^28; systematic files: every one of the 30 keys, 15 meters, every value in the integral and the "
